@@ -1,8 +1,11 @@
 """Runs query scripts on FRESH SurfaceMesh objects built by /repo's mouette and reports canonical observations.
 
-stdin : {"cases": [ {"nv": n, "faces": [[...],...], "sort": bool, "script": [[name, args...], ...]}, ... ]}
-stdout: '@@JSON ' + {"cases": [ {"edges": [[a,b],...], "corner_elem": [...], "corner_adj": [...],
-                                 "obs": [answer, ...]} , ...]}
+stdin : {"cases": [ {"nv": n, "faces": [[...],...], "route": r, "sort": bool, "script_seed": k | "script": [[name, args...], ...]}, ... ]}
+        the mesh is built from (nv, faces) through construction route r (bare lists, tuples, numpy rows, from_arrays, save+load,
+        RawMeshData(mesh) re-wrap with appended faces, subdivision editor, copy, merge); the script is drawn (from script_seed)
+        for the FINISHED object, whose face list is reported back and is what the model / oracle are fed.
+stdout: '@@JSON ' + {"cases": [ {"nv":.., "faces": [...], "route": used, "script": [...], "edges": [[a,b],...],
+                                 "corner_elem": [...], "corner_adj": [...], "obs": [answer, ...]} , ...]}
 answer: ["none"] | ["int", z] | ["bool", b] | ["list", [z|null, ...]] | ["err", ExceptionClassName] | ["other", repr]
 Tuples and lists are both reported as "list" (the property does not distinguish them).
 """
@@ -31,21 +34,98 @@ def canon(r):
     return ["other", repr(r)[:200]]
 
 
-def build(case):
+def _pts(nv):
+    import mouette as M
+    return [M.Vec(float(i % 7), float(i // 7), float((i * i) % 5)) for i in range(nv)]
+
+
+def _base(nv, faces, conv=list):
     import mouette as M
     d = M.mesh.RawMeshData()
-    d.vertices += [M.Vec(float(i), 0., 0.) for i in range(case["nv"])]
-    d.faces += [list(F) for F in case["faces"]]
+    d.vertices += _pts(nv)
+    d.faces += [conv(F) for F in faces]
     return M.mesh.SurfaceMesh(d)
 
 
-def run_case(case):
+ROUTES = ["list", "tuple", "numpy", "from_arrays", "obj", "medit", "geogram", "rewrap", "triangulate", "loop", "copy",
+          "copy_conn", "merge"]
+SAME_FACES = {"list", "tuple", "numpy", "from_arrays", "obj", "geogram", "rewrap", "copy", "copy_conn"}
+
+
+def build_route(case):
+    """Builds the finished SurfaceMesh of the case through its construction route.
+    Returns (mesh, route actually used): a route that does not apply to the face list falls back to 'list'."""
+    import os
+    import tempfile
+    import numpy as np
     import mouette as M
+    nv, faces, route = case["nv"], case["faces"], case.get("route", "list")
+    arities = {len(F) for F in faces}
+    if route == "tuple":
+        return _base(nv, faces, tuple), route
+    if route == "numpy":
+        return _base(nv, faces, lambda F: np.array(F)), route
+    if route == "from_arrays" and len(arities) == 1:
+        return M.mesh.from_arrays(np.array([list(p) for p in _pts(nv)]), F=np.array(faces)), route
+    if route in ("obj", "medit", "geogram") and not (route == "medit" and max(arities) > 4):
+        ext = {"obj": ".obj", "medit": ".mesh", "geogram": ".geogram_ascii"}[route]
+        with tempfile.TemporaryDirectory() as td:
+            fn = os.path.join(td, "m" + ext)
+            M.mesh.save(_base(nv, faces), fn)
+            return M.mesh.load(fn), route
+    if route == "rewrap" and len(faces) >= 2:
+        # build a first mesh from a prefix of the faces, use it, wrap it again (shared containers), append the rest, rebuild
+        k = max(1, len(faces) // 3)
+        m1 = _base(nv, faces[:-k])
+        m1.connectivity.vertex_to_corners(0)
+        m1.boundary_vertices
+        d2 = M.mesh.RawMeshData(m1)
+        d2.faces += [list(F) for F in faces[-k:]]
+        return M.mesh.SurfaceMesh(d2), route
+    if route in ("triangulate", "loop"):
+        m0 = _base(nv, faces)
+        m0.connectivity.vertex_to_faces(0)
+        with M.mesh.SurfaceSubdivision(m0) as ed:
+            if route == "triangulate":
+                ed.triangulate()
+            else:
+                ed.loop_subdivision(1)
+        return ed.mesh, route
+    if route == "copy":
+        return M.mesh.copy(_base(nv, faces)), route
+    if route == "copy_conn":
+        b = _base(nv, faces)
+        b.connectivity.vertex_to_vertices(0)
+        b.interior_edges
+        return M.mesh.copy(b, copy_attributes=True, copy_connectivity=True), route
+    if route == "merge":
+        return M.mesh.merge([_base(nv, faces), _base(4, [[0, 1, 2], [0, 2, 3]])]), route
+    return _base(nv, faces), "list"
+
+
+def run_case(case):
+    import random
+    import mouette as M
+    from vf.impl import c01_meshgen as G
     M.config.sort_neighborhoods = bool(case["sort"])
-    m = build(case)
+    m, used = build_route(case)
+    if type(m).__name__ != "SurfaceMesh":
+        return {"crash": "route %s produced a %s" % (used, type(m).__name__)}
+    nv2 = len(m.vertices)
+    faces2 = [[int(v) for v in F] for F in m.faces]
+    note = None
+    if used != "list" and G.validate(nv2, faces2) is not None:
+        # e.g. a quad split along a diagonal that is already an edge of the surface: not this property's matter
+        note = "route %s gave a non-manifold face list (%s): rebuilt from the bare list" % (used, G.validate(nv2, faces2))
+        m, used = build_route(dict(case, route="list"))
+        nv2 = len(m.vertices)
+        faces2 = [[int(v) for v in F] for F in m.faces]
+    script = case.get("script")
+    if script is None:
+        script = G.gen_script(random.Random(case.get("script_seed", 0)), {"nv": nv2, "faces": faces2})
     cn = m.connectivity
     obs = []
-    for q in case["script"]:
+    for q in script:
         name, args = q[0], q[1:]
         try:
             if name == "direct_face_inds":
@@ -71,7 +151,7 @@ def run_case(case):
     res = {"edges": [[int(a), int(b)] for a, b in m.edges],
            "corner_elem": [int(m.face_corners.element(i)) for i in range(len(m.face_corners))],
            "corner_adj": [int(m.face_corners.adj(i)) for i in range(len(m.face_corners))],
-           "faces": [[int(v) for v in F] for F in m.faces],
+           "nv": nv2, "faces": faces2, "script": script, "route": used, "note": note,
            "obs": obs}
     return res
 
